@@ -2,6 +2,7 @@
 package wire
 
 import (
+	"runtime"
 	"encoding/hex"
 	"encoding/json"
 	"fmt"
@@ -64,10 +65,18 @@ func (o *Out) Add(op, obs string) {
 	o.Ops = append(o.Ops, op)
 	o.Obs = append(o.Obs, obs)
 	o.Meta.Cases++
+	// The harness runs with the background collector off (it deadlocks under the fake clock);
+	// collect synchronously now and then so that long streams stay within memory.
+	if o.Meta.Cases%GCEvery == 0 {
+		runtime.GC()
+	}
 	if len(o.Meta.Samples) < 5 {
 		o.Meta.Samples = append(o.Meta.Samples, op+"  =>  "+obs)
 	}
 }
+
+// GCEvery: operations between two forced collections.
+var GCEvery = 1000
 
 func (o *Out) Count(k string) { o.Meta.Hist[k]++ }
 
